@@ -77,10 +77,16 @@ Strings(n) == UNION {[1..k -> ClassNames] : k \in 0..n}
 TagShapes == {"none", "one", "three", "emptyval", "two-tags"}
 Tampers == {"none", "content", "tagvalue", "tagadd", "kind", "created_at", "pubkey",
             "id-bit", "sig-bit", "sig-other", "id-other",
-            "content-reid", "pubkey-reid"}   \* forgeries with a recomputed (consistent) id and the stale signature
+            "content-reid", "pubkey-reid",   \* forgeries with a recomputed (consistent) id and the stale signature
+            "id-case", "sig-case"}           \* one hex letter of the id / the signature in upper case (one bit of the text)
+
+\* The last two leave the decoded bytes unchanged: Event.Verify decodes the hex text, so they are
+\* refused by the field validators (Event.Valid) in front of it. For them "reported authentic"
+\* is the verdict of the admission gate, Valid /\ Verify; for all others Verify alone must refuse.
+Lexical == {"id-case", "sig-case"}
 
 \* what the tamper does to the two checks (id = hash of canonical form, sig over id)
-IdOK(t)  == t \in {"none", "sig-bit", "sig-other", "content-reid", "pubkey-reid"}
+IdOK(t)  == t \in {"none", "sig-bit", "sig-other", "content-reid", "pubkey-reid", "sig-case"}
 SigOK(t) == t \in {"none", "content", "tagvalue", "tagadd", "kind", "created_at"}   \* sig still signs the (stale) id
 Authentic(t) == IdOK(t) /\ SigOK(t)
 OnlyUntamperedAuthentic == \A t \in Tampers : Authentic(t) <=> t = "none"
